@@ -133,4 +133,42 @@ Definition start (s : st) (calls : list ccall) : conf :=
   mkConf (sfs s) (stags s) (sdigs s) false (sctr s)
          (map (fun x => mkThread (call_prog (sfs s) (stags s) x) [] None false) calls).
 
+(* the same scheduler with indexLock ignored (the code without s.indexLock): only used to show
+   what the lock is for (C10_conc_refuted_without_indexlock) *)
+Definition sched_step_nolock (c : conf) (i : nat) : conf :=
+  match nth_error (cthreads c) i with
+  | Some t =>
+      match fire (mkConf (cfs c) (ctags c) (cdigs c) false (ccnt c) (cthreads c)) t with
+      | Some (c', t') => mkConf (cfs c') (ctags c') (cdigs c') (clock c') (ccnt c') (set_nth i t' (cthreads c'))
+      | None => c
+      end
+  | None => c
+  end.
+Definition sched_nolock (c : conf) (is : list nat) : conf := fold_left sched_step_nolock is c.
+
+(* ---------- sequential histories and batches of concurrent calls alternate ---------- *)
+Inductive phase := PSeq (h : list op) | PConc (calls : list ccall) (is : list nat).
+
+(* the store when every concurrent call has returned *)
+Definition st_of (c : conf) : st := mkSt (cfs c) (ctags c) (cdigs c) (ccnt c).
+Definition quietb (c : conf) : bool :=
+  forallb (fun t => match tprog t with [] => true | _ => false end) (cthreads c).
+
+Definition run_phase (inplace unlink_first : bool) (s : st) (p : phase) : st :=
+  match p with
+  | PSeq h => run H shuffle inplace unlink_first true h s
+  | PConc calls is => st_of (sched (start s calls) is)
+  end.
+Definition run_phases (inplace unlink_first : bool) (s : st) (ps : list phase) : st :=
+  fold_left (run_phase inplace unlink_first) ps s.
+
+(* every batch of the history ran until all its calls had returned *)
+Fixpoint phases_quiet (inplace unlink_first : bool) (s : st) (ps : list phase) : bool :=
+  match ps with
+  | [] => true
+  | p :: r =>
+      match p with PConc calls is => quietb (sched (start s calls) is) | PSeq _ => true end &&
+      phases_quiet inplace unlink_first (run_phase inplace unlink_first s p) r
+  end.
+
 End Conc.
